@@ -28,7 +28,7 @@ func init() { checks["C02"] = checkC02 }
 func c02Core() gen.Features {
 	return gen.Features{Floats: true, Strings: true, Arrays: true, Objects: true, While: true, For: true, Switch: true,
 		BreakContinue: true, StatusReturn: true, Guards: true, BuiltinsCore: true, Match: true, DivZero: true, IndexOOR: true, Mod: true,
-		NestedReturn: true, DeclInBranch: true, IllTyped: 3, NoMatchBindShadow: true}
+		NestedReturn: true, DeclInBranch: true, IllTyped: 3, NoMatchBindShadow: true, ArrFork: true}
 }
 
 // Content-Type spellings for the request-binding workload: whether a body is parsed into
@@ -214,6 +214,7 @@ func checkC02(tier string) {
 		cases []c02Case
 		src   string
 		flag  string
+		reqs  []HReq // binding modules: the requests sent, in order
 	}
 	metas := map[int]*meta{}
 	var jobs []HJob
@@ -269,8 +270,36 @@ func checkC02(tier string) {
 		}
 	}
 	bindID := len(metas)
-	metas[bindID] = &meta{src: bindSrc, flag: "bindings"}
+	metas[bindID] = &meta{src: bindSrc, flag: "bindings", reqs: breqs}
 	jobs = append(jobs, HJob{ID: bindID * 2, Src: bindSrc, Interp: false, Reqs: breqs}, HJob{ID: bindID*2 + 1, Src: bindSrc, Interp: true, Reqs: breqs})
+
+	// request values *used*: a number from a JSON body or a typed query parameter enters arithmetic, ordering, an index
+	// and a substring bound — whether it is an int or a float there must not depend on the mode. (== is left out: the
+	// int/float equality difference is the recorded finding C02-eq-int-float.)
+	useSrc := "@ POST /u/div {\n  > {q: input.total / input.count, h: input.total / 2, m: input.total * 3, s: input.total + 0.5, lt: input.total < input.count}\n}\n\n" +
+		"@ GET /u/q {\n  ? price: float = 1.5\n  ? k: int = 1\n  > {half: price / 2, kd: k / 2, sum: price + k, prod: price * k, lt: price < k}\n}\n\n" +
+		"@ POST /u/ix {\n  $ names = [\"a\", \"b\", \"c\", \"d\"]\n  > {x: names[input.i]}\n}\n\n" +
+		"@ POST /u/mod {\n  > {r: input.total % input.count}\n}\n\n" +
+		"@ POST /u/str {\n  > {s: \"n=\" + input.total}\n}\n\n" +
+		"@ GET /u/p/:n {\n  > {twice: n + n}\n}\n"
+	ubodies := []string{`{"total":7,"count":2}`, `{"total":7.5,"count":2}`, `{"total":8,"count":2}`, `{"total":8,"count":2.5}`, `{"total":-7,"count":2}`, `{"total":1e3,"count":7}`,
+		`{"total":9007199254740993,"count":2}`, `{"total":"x","count":2}`, `{"total":7,"count":0}`, `{"total":7}`, `{"i":1}`, `{"i":1.5}`, `{"i":0}`, `{"i":9}`, `{"i":-1}`, `{"i":"1"}`, `{"total":3.0,"count":2.0}`}
+	uqs := []string{"", "?price=9", "?price=9.5", "?k=9", "?price=9&k=2", "?price=1e3&k=3", "?price=-0", "?price=7.0&k=2", "?price=x", "?k=2.0", "?price=9007199254740993"}
+	var ureqs []HReq
+	for _, p := range []string{"/u/div", "/u/ix", "/u/mod", "/u/str"} {
+		for _, b := range ubodies {
+			ureqs = append(ureqs, HReq{M: "POST", P: p, B: sp(b)})
+		}
+	}
+	for _, q := range uqs {
+		ureqs = append(ureqs, HReq{M: "GET", P: "/u/q" + q})
+	}
+	for _, seg := range []string{"7", "7.0", "x", "-3", "1e3"} {
+		ureqs = append(ureqs, HReq{M: "GET", P: "/u/p/" + seg})
+	}
+	useID := len(metas)
+	metas[useID] = &meta{src: useSrc, flag: "bindings-use", reqs: ureqs}
+	jobs = append(jobs, HJob{ID: useID * 2, Src: useSrc, Interp: false, Reqs: ureqs}, HJob{ID: useID*2 + 1, Src: useSrc, Interp: true, Reqs: ureqs})
 
 	// directed probes of the quarantined constructs
 	probes := c02Probes()
@@ -323,7 +352,8 @@ func checkC02(tier string) {
 		if !oc.Compiled {
 			fellBack++
 		}
-		if m.flag == "bindings" {
+		if m.flag == "bindings" || m.flag == "bindings-use" {
+			breqs, bindSrc := m.reqs, m.src
 			for qi := range oc.Resps {
 				if qi >= len(oi.Resps) {
 					break
@@ -347,7 +377,7 @@ func checkC02(tier string) {
 				if a.Status == b.Status {
 					kind = c02DiffPath(a.Body, b.Body, "")
 				}
-				r.Violate("bindings:"+kind+":compiled="+fmt.Sprint(a.Status)+",interpreted="+fmt.Sprint(b.Status), fmt.Sprintf("%s %s body=%q: compiled answers %d %s, interpreted %d %s", rq.M, rq.P, body, a.Status, clipN(fmt.Sprint(a.Body), 100), b.Status, clipN(fmt.Sprint(b.Body), 100)),
+				r.Violate(m.flag+":"+kind+":compiled="+fmt.Sprint(a.Status)+",interpreted="+fmt.Sprint(b.Status), fmt.Sprintf("%s %s body=%q: compiled answers %d %s, interpreted %d %s", rq.M, rq.P, body, a.Status, clipN(fmt.Sprint(a.Body), 100), b.Status, clipN(fmt.Sprint(b.Body), 100)),
 					map[string]interface{}{"source": bindSrc, "request": rq, "compiled": a, "interpreted": b})
 			}
 			continue
